@@ -6,7 +6,7 @@ import ast
 from ..absint import Interp
 from ..src import AnalysisError, M_CASING, M_NAMING
 from typing import List
-from ..sym import N, dotted, show
+from ..sym import A, N, dotted, show
 
 PROP = "C19"
 TECHNIQUE = "dataflow through the keyword/identifier guard (I1); E2 path conditions of enum-member shortening (I2); structural agreement of emitted-key expression, key table and lookup (I3)"
@@ -155,6 +155,28 @@ def rule_I2(ctx, rule: str = "I2") -> None:
                     guard = n
                 else:
                     weak_guard = n
+    if guard is None:
+        # an incremental check: `name in seen` / `name not in seen` against a local set that the same loop fills with the names
+        set_locals = {t.id for a in ast.walk(ec) if isinstance(a, (ast.Assign, ast.AnnAssign)) and a.value is not None
+                      and ((isinstance(a.value, ast.Call) and ast.unparse(a.value.func) in ("set", "dict", "Counter", "collections.Counter") and not a.value.args) or
+                           (isinstance(a.value, ast.Dict) and not a.value.keys))
+                      for t in (a.targets if isinstance(a, ast.Assign) else [a.target]) if isinstance(t, ast.Name)}
+        for lp in [x for x in ast.walk(ec) if isinstance(x, ast.For)]:
+            tests = [c for c in ast.walk(lp) if isinstance(c, ast.Compare) and len(c.ops) == 1 and isinstance(c.ops[0], (ast.In, ast.NotIn)) and isinstance(c.comparators[0], ast.Name)
+                     and c.comparators[0].id in set_locals]
+            for c in tests:
+                key = ast.unparse(c.left)
+                sname = c.comparators[0].id
+                fills = any((isinstance(k, ast.Call) and isinstance(k.func, ast.Attribute) and k.func.attr == "add" and isinstance(k.func.value, ast.Name) and k.func.value.id == sname
+                             and k.args and ast.unparse(k.args[0]) == key) or
+                            (isinstance(k, ast.Assign) and any(isinstance(t, ast.Subscript) and isinstance(t.value, ast.Name) and t.value.id == sname and ast.unparse(t.slice) == key for t in k.targets))
+                            for k in ast.walk(lp))
+                # the compared key is a member name: a `.name` attribute, or a local assigned from the naming function in this loop
+                is_name = key.endswith(".name") or any(isinstance(a, ast.Assign) and any(isinstance(t, ast.Name) and t.id == key for t in a.targets) and isinstance(a.value, ast.Call)
+                                                       and ("name" in ast.unparse(a.value.func).lower() or any(isinstance(x, ast.Attribute) and x.attr == "name" for g in a.value.args for x in ast.walk(g)))
+                                                       for a in ast.walk(lp))
+                if fills and is_name:
+                    guard = c
     if n_cut == 0 or guard is not None:
         ctx.proved(rule, "EnumDefinitionCompiler:distinct-members", mods.loc(ec), "names are compared for distinctness" if guard is not None else "names are never shortened")
     elif weak_guard is not None:
@@ -228,6 +250,80 @@ def reader_lookup(ctx, mod, q: str):
     if not seen:
         return None, [], loc, "no lookup of the field metadata by name found"
     return table, sorted(set(fbs)), loc, None
+
+
+def _table_fills_by_paths(ctx, mod, init: ast.AST, table_attr: str):
+    """{(normalised key text, casing text)} for every `T.setdefault(K, f)` / `T[K] = f` event on the paths of the metadata
+    constructor where T is what ends up in self.<table_attr>, f the current field name of an enclosing loop over all field
+    names, and K applies a casing (an element of an enclosing loop over a literal tuple of casings, or a named one) to f"""
+    from ..sym import subst as _subst
+    paths = Interp(mod, named_containers=True).run(init)
+    ctx.count(len(paths))
+    out = set()
+    if not paths:
+        return out
+    tables = {e.data[1] for p in paths for e in p.events if e.kind == "store" and e.data[0][0] == "a" and e.data[0][2] == table_attr}
+    if len(tables) != 1:
+        return out
+    T = next(iter(tables))
+    fields_terms = {e.data for p in paths for e in p.events if e.kind == "call" and dotted(e.data[1]).endswith("fields") and len(e.data[2]) == 1}
+    # dicts that receive an entry keyed by the field's name for every field, on every path
+    keyed = None
+    for p in paths:
+        here = set()
+        for e in p.events:
+            if e.kind == "store" and e.data[0][0] == "sub" and e.data[0][1][0] == "n" and e.loops and e.loops[-1] in fields_terms \
+                    and e.data[0][2] == A(("elem", e.loops[-1]), "name") and len(e.loops) == 1:
+                here.add(e.data[0][1])
+        keyed = here if keyed is None else keyed & here
+    keyed = keyed or set()
+
+    def all_names_iterable(it) -> bool:
+        if it in keyed:
+            return True
+        if it[0] == "call" and dotted(it[1]) in ("tuple", "list", "sorted", "iter", "reversed") and len(it[2]) == 1:
+            return all_names_iterable(it[2][0])
+        if it[0] == "call" and it[1][0] == "a" and it[1][2] == "keys" and not it[2]:
+            return all_names_iterable(it[1][1])
+        return False
+
+    for p in paths:
+        for e in p.events:
+            K = V = None
+            if e.kind == "call" and e.data[1][0] == "a" and e.data[1][2] == "setdefault" and e.data[1][1] == T and len(e.data[2]) == 2:
+                K, V = e.data[2]
+            elif e.kind == "store" and e.data[0][0] == "sub" and e.data[0][1] == T:
+                K, V = e.data[0][2], e.data[1]
+                # a store may be guarded by `K not in T` only (then the key is in the table either way)
+            if K is None:
+                continue
+            name_terms = [("elem", l) for l in e.loops if all_names_iterable(l)] + [A(("elem", l), "name") for l in e.loops if l in fields_terms]
+            if V not in name_terms:
+                continue
+            guards = [k for k in p.valuation if k[0] == "op" and k[1] in ("in", "not in") and len(k) == 4 and k[3] == T]
+            if any(k[2] != K for k in guards):
+                continue
+            other = [k for k in p.valuation if any(x == V or x == K for x in walk_terms(k)) and k not in guards]
+            if other:
+                continue
+            applied = [x for x in walk_terms(K) if x[0] == "call" and x[2] == (V,) and not x[3]]
+            for call in applied:
+                f = call[1]
+                norm = lambda t: show(_subst(_subst(t, lambda x: N("$casing") if x == f else None), lambda x: N("$field") if x == V else None))
+                if f[0] == "elem" and f[1] in e.loops and f[1][0] in ("tuple", "list"):
+                    for cas in f[1][1]:
+                        out.add((norm(K), show(cas)))
+                elif f[0] == "elem" and f[1] in e.loops and f[1][0] == "c" and isinstance(f[1][1], tuple):
+                    for cas in f[1][1]:
+                        out.add((norm(K), str(cas)))
+                else:
+                    out.add((norm(K), show(f)))
+    return out
+
+
+def walk_terms(t):
+    from ..sym import walk as _w
+    return _w(t)
 
 
 def _norm_key_expr(e: ast.AST, casing_name: str, field_name: str) -> str:
@@ -480,6 +576,11 @@ def rule_I3(ctx, rule: str = "I3") -> None:
                         if isinstance(x, ast.Call) and ast.dump(x.func) == ast.dump(f):
                             x.func = ast.Name("$casing", ast.Load())
                     fills.append((_norm_key_expr(ke2, "$casing", "$field"), ast.unparse(f), True, c))
+    if not fills:
+        # other ways of writing the construction: read off the paths of the constructor (E2) which (key, field) pairs are put
+        # into the table inside a loop over all field names
+        for k_, cas_ in _table_fills_by_paths(ctx, mod, init, table_attr):
+            fills.append((k_, cas_, True, assigned[0]))
     node = fills[0][3] if fills else assigned[0]
     for q, e in emit.items():
         name = f"{q}:keys-in-table"
